@@ -734,7 +734,7 @@ def obs_c17(c: Ctx):
                     return {"nodes": [key_of_token(t, unique) for t, _ in nodes],
                             "edges": [[key_of_token(p, unique), key_of_token(ch, unique)] for p, ch, _ in edges],
                             "edge_kinds": [[key_of_token(p, unique), key_of_token(ch, unique), kind_id(lb)] for p, ch, lb in edges],
-                            "kinds": [], "names": names}
+                            "kinds": [], "names": names, "index": []}
 
                 out.append({"q": "export", "a": a, "r": call(run_dot, norm_dot)})
                 # --- mermaid
@@ -793,7 +793,7 @@ def obs_c17(c: Ctx):
                                 p_, lb, ch = m.group(1), None, m.group(2)
                             edges.append([idx_key.get(p_, -2), idx_key.get(ch, -2)])
                             ek.append([idx_key.get(p_, -2), idx_key.get(ch, -2), kind_id(lb)])
-                    return {"nodes": nodes, "edges": edges, "edge_kinds": ek, "kinds": [], "names": names}
+                    return {"nodes": nodes, "edges": edges, "edge_kinds": ek, "kinds": [], "names": names, "index": []}
 
                 out.append({"q": "export", "a": a2, "r": call(run_mm, norm_mm)})
         # --- RDF (always keyed by data_id)
@@ -814,8 +814,10 @@ def obs_c17(c: Ctx):
                         return ROOT_KEY if term == NUTREE_NS.system_root else -2
                     return fl.model_did(term.toPython())
 
-                nodes, edges, kinds, names = set(), [], [], []
+                nodes, edges, kinds, names, index = set(), [], [], [], []
                 for sub, pred, obj in g:
+                    if pred == NUTREE_NS.index:
+                        index.append([key(sub), int(obj.toPython())])
                     nodes.add(key(sub))
                     if pred == NUTREE_NS.has_child:
                         edges.append([key(sub), key(obj)])
@@ -824,7 +826,7 @@ def obs_c17(c: Ctx):
                         kinds.append([key(sub), kind_id(str(obj))])
                     elif pred == NUTREE_NS.name and key(sub) != ROOT_KEY:
                         names.append([key(sub), name_to_d.get(str(obj), -1)])
-                return {"nodes": sorted(nodes), "edges": edges, "edge_kinds": [], "kinds": kinds, "names": names}
+                return {"nodes": sorted(nodes), "edges": edges, "edge_kinds": [], "kinds": kinds, "names": names, "index": index}
 
             out.append({"q": "export", "a": a3, "r": call(run_rdf, norm_rdf)})
     return out
